@@ -25,7 +25,27 @@ CONFIG = {
 }
 
 
+def generate_absent(rng):
+    """a flat folder with an ignored file; all recorded files are away for one generation (which therefore has no records
+    at all) and come back unchanged before the history is flattened"""
+    env = gen.gen_env(rng)
+    names = rng.sample(["a.mov", "b.mov", "c c.wav", "notes.txt"], rng.randint(1, 3))
+    tree = {n: {"t": "f", "c": gen.unique_content(rng), "m": 1_600_000_000_000_000 + i * 1_000_000} for i, n in enumerate(names)}
+    tree["scratch.tmp"] = {"t": "f", "c": gen.unique_content(rng)}
+    env["tree"] = tree
+    fm = gen.fmt_args(gen.pick_formats(rng, 1, 2))
+    ops = [scen.cmd("create", "@R", *fm, "-i", "*.tmp"), scen.gen_advance(rng)]
+    if rng.random() < 0.5:
+        ops += [scen.cmd("create", "@R", *fm), scen.gen_advance(rng)]
+    ops += [{"op": "remove", "path": n, "fault": "remove_file"} for n in names]
+    ops += [scen.cmd("create", "@R", *fm, *(["-n"] if rng.random() < 0.3 else [])), scen.gen_advance(rng)]
+    ops += [{"op": "write", "path": n, "c": tree[n]["c"], "m": tree[n]["m"], "fault": "restore_content"} for n in names]
+    return {"world": env, "ops": ops, "fault_seed": rng.getrandbits(30), "prior": None, "absent_round": True}
+
+
 def generate(rng, tier):
+    if rng.random() < 0.04:
+        return generate_absent(rng)
     env = gen.gen_env(rng)
     if rng.random() < 0.15:
         env["process_model"] = "session"  # all commands of the run in one long-lived simulated process
@@ -93,7 +113,7 @@ def execute(sc, ctx):
     w = core.World(sc["world"], ctx.subdir("main"))
     results = scen.run_ops(w, sc["ops"], ctx)
     ctx.absorb_world(w)
-    if not scen.setup_ok(results, allowed=(0, 11)):
+    if not scen.setup_ok(results, allowed=(0, 10, 11) if sc.get("absent_round") else (0, 11)):
         ctx.probe("setup_failed_na")
         return
     hv = observe.HistoryView(w.root)
